@@ -7,11 +7,18 @@ import Gonuts.Lemmas.Amount
 -/
 namespace Gonuts.Model.Mint
 
-/-- Unfold a program into nested conditions on the tables. -/
-macro "prog_simp" "[" ds:Lean.Parser.Tactic.simpLemma,* "]" : tactic => `(tactic|
-  simp only [$ds,*, runM_failIf_bind, runM_dbTry_bind, runM_eff_bind, runM_liftE_bind, runM_failOpt_bind,
-    runM_pure_bind, runM_throw_bind, runM_failIf, runM_liftE, runM_failOpt, runM_pure, runM_throw, runM_dbTry, runM_eff,
-    stepDL, execDb, execLn])
+/-- Unfold a program into nested conditions on the tables (effect-specific fused equations only, so
+    that every storage write appears as an explicit table update). -/
+macro "prog_simp" "[" ds:Lean.Parser.Tactic.simpLemma,* "]" loc:(Lean.Parser.Tactic.location)? : tactic => `(tactic|
+  simp only [$ds,*, runM_failIf_bind, runM_saveProofs_bind, runM_saveProofs, runM_addPending_bind, runM_removePending_bind,
+    runM_removePending, runM_saveSigs_bind, runM_updateMintQ_bind, runM_updateMintQ, runM_updateMeltQ_bind, runM_updateMeltQ,
+    runM_saveMintQ_bind, runM_saveMeltQ_bind, runM_getPending_bind, runM_getProofsUsed_bind, runM_getPendingByQuote_bind,
+    runM_getSigs_bind, runM_getIssued_bind, runM_getRedeemed_bind, runM_getMintQuote_bind, runM_getMintQuoteByHash_bind,
+    runM_getMeltQuote_bind, runM_getMeltQuoteByReq_bind, runM_getSig_bind, runM_getSeed_bind, runM_effUpdateMintQ_bind,
+    runM_lnFeeReserve_bind, runM_lnSendPayment_bind, runM_lnPayPartial_bind, runM_lnOutgoingStatus_bind,
+    runM_lnInvoiceStatus_bind, runM_lnCreateInvoice_bind,
+    runM_liftE_bind, runM_failOpt_bind, runM_pure_bind, runM_throw_bind, runM_failIf, runM_liftE, runM_failOpt,
+    runM_pure, runM_throw] $[$loc]?)
 
 /-! ## verifyProofs -/
 
@@ -29,6 +36,14 @@ theorem verifyProofs_runM (cx : Cx) (ps : List Proof) (s : DL) :
   simp only [verifyProofs, verifySpec, runM_failIf_bind, runM_dbTry_bind, runM_liftE, stepDL, execDb]
   repeat' split
   all_goals first | rfl | simp_all
+
+theorem runM_verifyProofs_bind {β : Type} (cx : Cx) (ps : List Proof) (f : Unit → PM β) (s : DL) :
+    runM (verifyProofs cx ps >>= f) s =
+      match verifySpec cx ps s.1 with
+      | .ok _ => runM (f ()) s
+      | .error e => (s, .error e) := by
+  rw [runM_bind, verifyProofs_runM]
+  cases verifySpec cx ps s.1 <;> rfl
 
 theorem yMatch_known (ps : List Proof) (y : Nat) :
     yMatch (ps.map (fun p => YRef.known p.secret)) y = true ↔ y ∈ ps.map (·.secret) := by
@@ -100,5 +115,218 @@ theorem gateAll_ok {mem : Mem} {ps : List Proof} (h : gateAll mem ps = .ok ()) :
       rcases List.mem_cons.1 hp with rfl | hp
       · cases u; exact hx
       · exact ih h p hp
+
+/-! ## inserts -/
+
+theorem insertRows_some {t rows t' : List PRow} (h : insertRows t rows = some t') :
+    t' = t ++ rows ∧ (rows.map (·.y)).Nodup ∧ (∀ r ∈ rows, r.y ∉ ysOf t) ∧ (∀ r ∈ rows, high r.amount = false) := by
+  induction rows generalizing t with
+  | nil => simp [insertRows] at h; subst h; simp
+  | cons x rest ih =>
+    unfold insertRows at h
+    split at h; · cases h
+    split at h; · cases h
+    rename_i hh hany
+    obtain ⟨h1, h2, h3, h4⟩ := ih h
+    have hx : x.y ∉ ysOf t := by
+      intro hy; apply hany
+      simp only [ysOf, List.mem_map] at hy
+      obtain ⟨r, hr, hry⟩ := hy
+      simp only [List.any_eq_true]; exact ⟨r, hr, by simp [hry]⟩
+    refine ⟨by simp [h1], ?_, ?_, ?_⟩
+    · simp only [List.map_cons, List.nodup_cons]
+      refine ⟨?_, h2⟩
+      intro hm
+      obtain ⟨r, hr, hry⟩ := List.mem_map.1 hm
+      exact h3 r hr (by simp [ysOf, hry])
+    · intro r hr
+      rcases List.mem_cons.1 hr with rfl | hr
+      · exact hx
+      · intro hy; exact h3 r hr (by simp only [ysOf, List.map_append, List.mem_append] at *; exact Or.inl hy)
+    · intro r hr
+      rcases List.mem_cons.1 hr with rfl | hr
+      · simpa using hh
+      · exact h4 r hr
+
+theorem insertRows_of {t rows : List PRow} (h2 : (rows.map (·.y)).Nodup) (h3 : ∀ r ∈ rows, r.y ∉ ysOf t)
+    (h4 : ∀ r ∈ rows, high r.amount = false) : insertRows t rows = some (t ++ rows) := by
+  induction rows generalizing t with
+  | nil => simp [insertRows]
+  | cons x rest ih =>
+    unfold insertRows
+    have hx := h4 x (List.mem_cons_self ..)
+    simp only [hx, Bool.false_eq_true, if_false]
+    have hany : ¬ (t.any (·.y == x.y)) = true := by
+      intro ha
+      simp only [List.any_eq_true, beq_iff_eq] at ha
+      obtain ⟨r, hr, hry⟩ := ha
+      exact h3 x (List.mem_cons_self ..) (by simp only [ysOf, List.mem_map]; exact ⟨r, hr, hry⟩)
+    simp only [hany]
+    simp only [List.map_cons, List.nodup_cons] at h2
+    rw [ih h2.2 ?_ (fun r hr => h4 r (List.mem_cons_of_mem _ hr))]
+    · simp
+    · intro r hr hy
+      simp only [ysOf, List.map_append, List.map_cons, List.map_nil, List.mem_append, List.mem_singleton] at hy
+      rcases hy with hy | hy
+      · exact h3 r (List.mem_cons_of_mem _ hr) hy
+      · exact h2.1 (hy ▸ List.mem_map.2 ⟨r, hr, rfl⟩)
+
+theorem insertSigs_of {t rows : List BSig} (h2 : (rows.map (·.b)).Nodup) (h3 : ∀ r ∈ rows, r.b ∉ t.map (·.b))
+    (h4 : ∀ r ∈ rows, high r.amount = false) : insertSigs t rows = some (t ++ rows) := by
+  induction rows generalizing t with
+  | nil => simp [insertSigs]
+  | cons x rest ih =>
+    unfold insertSigs
+    have hx := h4 x (List.mem_cons_self ..)
+    simp only [hx, Bool.false_eq_true, if_false]
+    have hany : ¬ (t.any (·.b == x.b)) = true := by
+      intro ha
+      simp only [List.any_eq_true, beq_iff_eq] at ha
+      obtain ⟨r, hr, hry⟩ := ha
+      exact h3 x (List.mem_cons_self ..) (by simp only [List.mem_map]; exact ⟨r, hr, hry⟩)
+    simp only [hany]
+    simp only [List.map_cons, List.nodup_cons] at h2
+    rw [ih h2.2 ?_ (fun r hr => h4 r (List.mem_cons_of_mem _ hr))]
+    · simp
+    · intro r hr hy
+      simp only [List.map_append, List.map_cons, List.map_nil, List.mem_append, List.mem_singleton] at hy
+      rcases hy with hy | hy
+      · exact h3 r (List.mem_cons_of_mem _ hr) hy
+      · exact h2.1 (hy ▸ List.mem_map.2 ⟨r, hr, rfl⟩)
+
+theorem insertSigs_some {t rows t' : List BSig} (h : insertSigs t rows = some t') : t' = t ++ rows := by
+  induction rows generalizing t with
+  | nil => simp [insertSigs] at h; subst h; simp
+  | cons x rest ih =>
+    unfold insertSigs at h
+    split at h; · cases h
+    split at h; · cases h
+    rw [ih h]; simp
+
+/-! ## outputs -/
+
+theorem dupOutputs_false {outs : List BMsg} (h : dupOutputs outs = false) : (outs.map (·.b.sid)).Nodup := by
+  induction outs with
+  | nil => simp
+  | cons m rest ih =>
+    simp only [dupOutputs, Bool.or_eq_false_iff] at h
+    simp only [List.map_cons, List.nodup_cons]
+    refine ⟨?_, ih h.2⟩
+    intro hm
+    obtain ⟨x, hx, hxe⟩ := List.mem_map.1 hm
+    have := h.1
+    simp only [List.any_eq_false, beq_iff_eq] at this
+    exact this x hx hxe
+
+theorem isKeyAmount_not_high {a : UInt64} (h : isKeyAmount a = true) : high a = false := by
+  unfold isKeyAmount at h
+  unfold high
+  simp only [Bool.and_eq_true, decide_eq_true_eq] at h
+  have := h.2
+  simp only [decide_eq_false_iff_not, ge_iff_le, UInt64.not_le]
+  rw [UInt64.lt_iff_toNat_lt] at *
+  have e1 : (0x1000000000000000 : UInt64).toNat = 0x1000000000000000 := by decide
+  have e2 : (0x8000000000000000 : UInt64).toNat = 0x8000000000000000 := by decide
+  omega
+
+theorem signOne_ok {mem : Mem} {m : BMsg} {s : BSig} (h : signOne mem m = .ok s) :
+    s.b = m.b.sid ∧ s.amount = m.amount ∧ s.ks = mem.active ∧ m.ks = .known mem.active ∧ isKeyAmount m.amount = true ∧
+    m.b = .pt s.b := by
+  unfold signOne at h
+  repeat' split at h
+  all_goals first | cases h | skip
+  rename_i _ _ i hk hi ha _ b hb
+  have hi' : i = mem.active := by simpa using hi
+  subst hi'
+  exact ⟨by simp [hb, BTerm.sid], rfl, rfl, hk, by simpa using ha, hb⟩
+
+theorem signAll_ok {mem : Mem} {outs : List BMsg} {sigs : List BSig} (h : signAll mem outs = .ok sigs) :
+    sigs.map (·.b) = outs.map (·.b.sid) ∧ sigs.map (·.amount) = outs.map (·.amount) ∧
+    (∀ s ∈ sigs, s.ks = mem.active ∧ isKeyAmount s.amount = true) ∧ (∀ m ∈ outs, m.ks = .known mem.active) := by
+  induction outs generalizing sigs with
+  | nil => simp [signAll, pure, Except.pure] at h; subst h; simp
+  | cons m rest ih =>
+    simp only [signAll, bind, Except.bind, pure, Except.pure] at h
+    split at h; · cases h
+    rename_i s hs
+    split at h; · cases h
+    rename_i ss hss
+    injection h with h; subst h
+    obtain ⟨h1, h2, h3, h4, h5, _⟩ := signOne_ok hs
+    obtain ⟨i1, i2, i3, i4⟩ := ih hss
+    refine ⟨by simp [h1, i1], by simp [h2, i2], ?_, ?_⟩
+    · intro x hx
+      rcases List.mem_cons.1 hx with rfl | hx
+      · exact ⟨h3, h2 ▸ h5⟩
+      · exact i3 x hx
+    · intro x hx
+      rcases List.mem_cons.1 hx with rfl | hx
+      · exact h4
+      · exact i4 x hx
+
+/-! ## Swap -/
+
+theorem getSigs_empty {db : DB} {bs : List Nat}
+    (h : ¬ (!(db.sigs.filter (fun x => bs.contains x.b)).isEmpty) = true) : ∀ b ∈ bs, b ∉ db.sigs.map (·.b) := by
+  intro b hb hm
+  apply h
+  obtain ⟨x, hx, hxb⟩ := List.mem_map.1 hm
+  simp only [Bool.not_eq_true', List.isEmpty_eq_false_iff_exists_mem]
+  exact ⟨x, List.mem_filter.2 ⟨hx, by simp [hxb, hb]⟩⟩
+
+/-- Facts about a swap that returned signatures. -/
+structure SwapOk (cx : Cx) (ps : List Proof) (outs : List BMsg) (v : Option E) (s s' : DL) (sigs : List BSig) : Prop where
+  ln : s'.2 = s.2
+  db : s'.1 = { s.1 with spent := s.1.spent ++ ps.map Proof.row, sigs := s.1.sigs ++ sigs }
+  verified : verifySpec cx ps s.1 = .ok ()
+  signed : signAll cx.mem outs = .ok sigs
+  distinct : (ps.map (·.secret)).Nodup
+  noUnder : (underflowSub (amountWrap (ps.map (·.amount))) (transactionFees cx.mem ps)).2 = false
+  balance : ∃ outTotal, amountChecked (outAmounts outs) = some outTotal ∧
+    ¬ ((underflowSub (amountWrap (ps.map (·.amount))) (transactionFees cx.mem ps)).1 < outTotal)
+  sigAll : proofsSigAll ps = true → v = none
+
+theorem swap_cases (cx : Cx) (ps : List Proof) (outs : List BMsg) (v : Option E) (s s' : DL) (r : Except E (List BSig))
+    (h : runM (swap cx ps outs v) s = (s', r)) :
+    (∃ e, r = .error e ∧ s' = s) ∨ (∃ sigs, r = .ok sigs ∧ SwapOk cx ps outs v s s' sigs) := by
+  obtain ⟨db, ln⟩ := s
+  cases hac : amountChecked (outAmounts outs) with
+  | none =>
+    simp only [swap, hac] at h
+    left; cases h; exact ⟨_, rfl, rfl⟩
+  | some outTotal =>
+    simp only [swap, hac] at h
+    prog_simp [runM_verifyProofs_bind] at h
+    split at h; · left; cases h; exact ⟨_, rfl, rfl⟩
+    split at h; · left; cases h; exact ⟨_, rfl, rfl⟩
+    split at h; · left; cases h; exact ⟨_, rfl, rfl⟩
+    rename_i hdup hunder hbal
+    split at h
+    rotate_left; · left; cases h; exact ⟨_, rfl, rfl⟩
+    rename_i u hver
+    split at h; · left; cases h; exact ⟨_, rfl, rfl⟩
+    rename_i hsigs
+    split at h; · left; cases h; exact ⟨_, rfl, rfl⟩
+    rename_i hv
+    split at h
+    rotate_left; · left; cases h; exact ⟨_, rfl, rfl⟩
+    rename_i sigs hsign
+    split at h
+    rotate_left; · left; cases h; exact ⟨_, rfl, rfl⟩
+    rename_i t hins
+    obtain ⟨ht, hnd, _, _⟩ := insertRows_some hins
+    obtain ⟨sb, sa, skey, _⟩ := signAll_ok hsign
+    have hsig : insertSigs db.sigs sigs = some (db.sigs ++ sigs) := by
+      apply insertSigs_of
+      · rw [sb]; exact dupOutputs_false (by simpa using hdup)
+      · intro x hx
+        exact getSigs_empty hsigs x.b (by rw [← sb]; exact List.mem_map.2 ⟨x, hx, rfl⟩)
+      · intro x hx; exact isKeyAmount_not_high (skey x hx).2
+    rw [hsig] at h
+    cases h
+    right
+    refine ⟨sigs, rfl, ⟨rfl, by simp [ht], by cases u; exact hver, hsign, ?_, by simpa using hunder, ⟨outTotal, hac, hbal⟩, ?_⟩⟩
+    · simpa [Proof.row, List.map_map, Function.comp_def] using hnd
+    · intro hsa; simpa [hsa] using hv
 
 end Gonuts.Model.Mint
